@@ -253,6 +253,23 @@ Section Loop.
   Qed.
 End Loop.
 
+(* exact-case: duplicate-free, same set of symbols *)
+Lemma ordered_nodup : forall l, ordered false l -> NoDup l.
+Proof.
+  induction l as [|a t IH]; simpl; intros H; [constructor|].
+  destruct H as (H1 & H2). constructor; [|apply IH; exact H2].
+  intros Hin. destruct (H1 a Hin) as (E & _). unfold sym_eq in E. simpl in E.
+  assert (str_eqb a a = true) by (apply str_eqb_eq; reflexivity). congruence.
+Qed.
+
+Theorem reorder_nodup : forall (syms l : list str),
+  reorder false syms = Some l -> NoDup l /\ (forall x, In x l <-> In x syms).
+Proof.
+  intros syms l H. apply reorder_spec in H. destruct H as (O & S & C). split.
+  - apply ordered_nodup. exact O.
+  - intros x. split; [apply S|]. intros Hx. destruct (C x Hx) as (y & Hy & E). simpl in E. subst. exact Hy.
+Qed.
+
 (* ------------------------------------------------------------------ ASCII case folding vs IGNORECASE *)
 Lemma icase_char : forall c d, cset_mem true false [CI_char d] c = N.eqb (ascii_upper c) (ascii_upper d).
 Proof.
@@ -293,7 +310,7 @@ Proof. reflexivity. Qed.
 Lemma sym_match_caseless : forall s loc w, sym_match true s loc w = starts_at (str_upper s) loc (str_upper w).
 Proof. reflexivity. Qed.
 
-Lemma rm_oneof_alternation : forall cl syms s i k,
+Lemma rm_oneof_alternation : forall (cl : bool) syms s i k,
   rm s (ralt (map (if cl then rlit_i else rlit) syms)) i k =
   first_some (fun w => if sym_match cl s i w then k (i + length w) else None) syms.
 Proof.
@@ -325,14 +342,14 @@ Lemma oneof_class_match : forall cl syms s loc,
 Proof.
   intros cl syms s loc AS. rewrite re_match_set.
   destruct (char_at s loc) as [c|] eqn:C.
-  - induction syms as [|w t IH]; simpl.
-    + unfold cset_mem. simpl. destruct cl; reflexivity.
-    + simpl in AS. apply andb_true_iff in AS. destruct AS as [A1 A2]. apply Nat.eqb_eq in A1.
-      destruct w as [|d [|e w']]; simpl in A1; try lia. simpl concat. simpl map.
+  - induction syms as [|w t IH].
+    + cbn. unfold cset_mem. simpl. destruct cl; reflexivity.
+    + unfold all_single in AS. cbn [forallb] in AS. apply andb_true_iff in AS. destruct AS as [A1 A2]. apply Nat.eqb_eq in A1.
+      destruct w as [|d [|e w']]; simpl in A1; try lia. cbn [concat app map find].
       assert (HD : sym_match cl s loc [d] = cset_mem cl false [CI_char d] c).
       { destruct cl.
         - rewrite sym_match_caseless. change (str_upper [d]) with [ascii_upper d].
-          rewrite starts_at_single_char, char_at_upper, C. simpl. rewrite icase_char. apply N.eqb_sym.
+          rewrite starts_at_single_char, char_at_upper, C. cbn [option_map]. rewrite icase_char. apply N.eqb_sym.
         - rewrite sym_match_plain, starts_at_single_char, C, cset_mem_single. apply N.eqb_sym. }
       rewrite HD.
       assert (SPLIT : cset_mem cl false (CI_char d :: map CI_char (concat t)) c =
@@ -340,8 +357,8 @@ Proof.
       { unfold cset_mem, items_mem. simpl. destruct cl; simpl;
           repeat match goal with |- context [N.eqb ?a ?b] => destruct (N.eqb a b) end; simpl;
           repeat match goal with |- context [existsb ?f ?l] => destruct (existsb f l) end; reflexivity. }
-      rewrite SPLIT. destruct (cset_mem cl false [CI_char d] c); simpl.
-      * reflexivity.
+      rewrite SPLIT. destruct (cset_mem cl false [CI_char d] c); cbn [orb].
+      * simpl. f_equal. lia.
       * apply IH. exact A2.
   - assert (forall w, In w syms -> sym_match cl s loc w = false).
     { intros w Hw. unfold all_single in AS. rewrite forallb_forall in AS. specialize (AS w Hw).
